@@ -32,7 +32,7 @@ class ValidatorSignature:
         return all(not is_param(result, n) for n in exclude)
 
 
-@contract('pjrpc.server.validators.base:BaseValidator.bind', props=['C04', 'C14'])
+@contract('pjrpc.server.validators.base:BaseValidator.bind', props=['C04', 'C14', 'C13'])
 class ValidatorBind:
     types = {'self': 'pjrpc.server.validators.base:BaseValidator', 'signature': '=Signature', 'params': 'opt:list|dict'}
     raises_only = ('pjrpc.server.validators.base:ValidationError',)
@@ -54,7 +54,7 @@ class ValidatorBind:
         return tlen() == old(tlen()) and isinstance(exc.args, tuple) and len(exc.args) == 1 and isinstance(exc.args[0], str)
 
 
-@contract('pjrpc.server.validators.base:BaseValidator.validate_method', props=['C04', 'C14'])
+@contract('pjrpc.server.validators.base:BaseValidator.validate_method', props=['C04', 'C14', 'C13'])
 class ValidateMethod:
     types = {'self': 'pjrpc.server.validators.base:BaseValidator', 'params': 'opt:list|dict', 'exclude': '=tuple',
              'kwargs': '=dict'}
@@ -95,7 +95,7 @@ def exclude_of(m):
     return (m.context,) if m.context else ()
 
 
-@contract('pjrpc.server.dispatcher:Method.bind@c04', props=['C04'])
+@contract('pjrpc.server.dispatcher:Method.bind@c04', props=['C04', 'C13'])
 class MethodBindProved:
     """The same function as the (abstract) MethodBind contract the dispatcher proofs use: there the outcome predicate is
     the uninterpreted binds(method, params) and the result an abstract callable 'bound_of = method'; here binds is
@@ -138,7 +138,7 @@ class MethodBindProved:
 from spec.prims import schema_ok
 
 
-@contract('pjrpc.server.validators.jsonschema:JsonSchemaValidator.validate_method', props=['C14'])
+@contract('pjrpc.server.validators.jsonschema:JsonSchemaValidator.validate_method', props=['C14', 'C13'])
 class JsonSchemaValidate:
     """C14 for the schema validator: a call is accepted iff its params bind to the signature (C04) AND the bound
     arguments satisfy the schema; otherwise ValidationError carrying a string (-> -32602, body not run); accepted
